@@ -220,9 +220,8 @@ fn main() {
                 set_src_path(path);
                 let r = guarded(|| {
                     let (_d, ctx) = new_ctx(path, case["sched"].as_bool().unwrap_or(false));
-                    let a = ctx.get_compiler().unwrap().emit_bytecode(src).is_ok();
-                    let b = ctx.get_compiler().unwrap().emit_wasm(src).is_ok();
-                    (a, b)
+                    // a prior compilation; the bytecode path runs the whole front end (lexer, parser, module resolution, typing, MIR)
+                    ctx.get_compiler().unwrap().emit_bytecode(src).is_ok()
                 });
                 json!({"id": case["id"], "hist": format!("{r:?}")})
             }
